@@ -16,6 +16,7 @@ func init() {
 	vHarnesses["VerifC14Canary"] = VerifC14Canary
 	vHarnesses["VerifC14Translate"] = VerifC14Translate
 	vHarnesses["VerifC14SetKeys"] = VerifC14SetKeys
+	vHarnesses["VerifC14Yaml"] = VerifC14Yaml
 	vHarnesses["VerifC14GitDriver"] = VerifC14GitDriver
 	vHarnesses["VerifC14DiffV1"] = VerifC14DiffV1
 	vHarnesses["VerifC14PatchV1"] = VerifC14PatchV1
@@ -496,5 +497,49 @@ func VerifC14GitDriver() {
 	vAssert(code == 0, "git diff driver does not exit 0")
 	vAssert(vCLIStdout() == a.Diff(b).Render(), "git diff driver output differs from the library rendering")
 	vCover("c14.gitdriver")
+	vCLIReset()
+}
+
+// VerifC14Yaml: -yaml reads YAML inputs (diff output is the same native text), -yaml -p prints
+// the patched document as YAML, and the json2yaml / yaml2json translations print the library's
+// renderings.
+func VerifC14Yaml() {
+	a, b := vDoc(), vDoc()
+	switch vChoice(4) {
+	case 0: // diff of two YAML files
+		vCLISetFile("a.yaml", a.Yaml())
+		vCLISetFile("b.yaml", b.Yaml())
+		code := vCLIRun([]string{"-yaml", "a.yaml", "b.yaml"})
+		if a.Equals(b) {
+			vAssert(code == 0, "-yaml: inputs are equal but the exit status is not 0")
+		} else {
+			vAssert(code == 1, "-yaml: inputs differ but the exit status is not 1")
+		}
+		vAssert(vCLIStdout() == a.Diff(b).Render(), "-yaml: stdout differs from the library rendering")
+		vCover("c14.yaml.diff")
+	case 1: // patch round trip with YAML documents
+		vCLISetFile("a.yaml", a.Yaml())
+		vCLISetFile("b.yaml", b.Yaml())
+		code := vCLIRun([]string{"-yaml", "-o", "d.txt", "a.yaml", "b.yaml"})
+		vAssume(code == 0 || code == 1)
+		code2 := vCLIRun([]string{"-yaml", "-p", "d.txt", "a.yaml"})
+		vAssert(code2 == 0, "-yaml -p rejected the diff printed by jd -yaml")
+		p, err := jd.ReadYamlString(vCLIStdout())
+		vAssert(err == nil, "-yaml -p printed something that is not YAML")
+		vAssert(p.Equals(b), "-yaml -p applied to a does not reproduce b")
+		vCover("c14.yaml.patch")
+	case 2:
+		vCLISetFile("a.json", a.Json())
+		code := vCLIRun([]string{"-t", "json2yaml", "a.json"})
+		vAssert(code == 0, "json2yaml does not exit 0")
+		vAssert(vCLIStdout() == a.Yaml(), "json2yaml output differs from the library rendering")
+		vCover("c14.yaml.json2yaml")
+	default:
+		vCLISetFile("a.yaml", a.Yaml())
+		code := vCLIRun([]string{"-t", "yaml2json", "a.yaml"})
+		vAssert(code == 0, "yaml2json does not exit 0")
+		vAssert(vCLIStdout() == a.Json(), "yaml2json output differs from the library rendering")
+		vCover("c14.yaml.yaml2json")
+	}
 	vCLIReset()
 }
